@@ -34,6 +34,7 @@ import common
 import gen
 from common import w_cells, w_val
 import translate_c03
+import translate_c03ir
 
 import bermuda
 from bermuda import Cell, CumulativeCell, IncrementalCell, Metadata, Triangle
@@ -1249,12 +1250,45 @@ def correspondence(ctx):
         ctx.count(f"op/{n}/returned", s.get("returned", 0))
         ctx.count(f"op/{n}/raised", s.get("raised", 0))
     heap_correspondence(ctx, rng)
+    heapir_report(ctx)
+
+
+def regenerate_tables():
+    """both translators, under the build lock (called by common.run_check)"""
+    translate_c03.regenerate()
+    translate_c03ir.regenerate()
+
+
+def heapir_report(ctx):
+    """counts and names of the HeapIR translation of THIS run (Generated/HeapIR*.lean) into the evidence"""
+    p = translate_c03ir._LAST.get("program")
+    if p is None:
+        return
+    c = p.counts()
+    for k in ("functions", "translated", "disciplined", "violating", "notDisciplined", "untranslated"):
+        ctx.count(f"heapir/{k}", c[k])
+    cov, unc, unm = translate_c03ir.coverage_of(p, list(REGISTRY))
+    ctx.count("heapir/registry_ops_covered_by_theorem", len(cov))
+    ctx.count("heapir/registry_ops_not_covered", len(unc))
+    ctx.count("heapir/registry_ops_not_mapped", len(unm))
+    ctx.notes.append("HeapIR (translate_c03ir.py): " + json.dumps(c))
+    if p.violating:
+        ctx.notes.append("HeapIR: functions with a write through a reference that may reach a parameter/global "
+                         "(`all_disciplined` does not build): " + json.dumps(
+                             [{"function": k, "where": [f"{p.w.fns[k].mod.rel}:{ln}: {tx}" for _, ln, tx in fl[:4]]}
+                              for k, fl in p.violating]))
+    ctx.notes.append("HeapIR notDisciplined (covered by correspondence only): " + json.dumps(dict(sorted(p.not_disciplined))))
+    ctx.notes.append("HeapIR untranslated: " + json.dumps(dict(p.untranslated)))
+    ctx.notes.append("HeapIR registry operations NOT covered by frame_translated_functions: " + json.dumps(unc))
+    if unm:
+        ctx.notes.append("HeapIR registry operations without an entry-point mapping: " + json.dumps(unm))
+    ctx.notes.append("HeapIR trusted summaries: " + json.dumps(translate_c03ir.trusted_summaries(), default=list))
 
 
 if __name__ == "__main__":
     common.run_check(
         "C03", module="Bermuda.Properties.C03", driver_targets=["drv_c03"],
-        correspondence=correspondence, level="translation_validation", extra_translate=translate_c03.regenerate,
+        correspondence=correspondence, level="translation_validation", extra_translate=regenerate_tables,
         rule="registry of public operations (Triangle/Cell API, bermuda.utils, io writers to temp files + readers, "
              "build_plot_data, plot_*) x 4 of the 12 argument shapes (scalar/array x cumulative/incremental x 1-3 slices) "
              "x chain position 0/1/2 (thorough: x20, random chains up to 8 links) x {plain, read-only arrays}; deep "
@@ -1263,5 +1297,9 @@ if __name__ == "__main__":
         assumptions=["aliasing inside numpy/pandas/altair is not modelled; a mutation that is undone before the call "
                      "returns is invisible to fingerprints (the read-only run catches the array case)"],
         trusted=["fingerprint = class, dates, metadata repr (dict order), key order, value type, dtype, shape, bytes",
-                 "harness/translate_c03.py (accumulator patterns from the AST, regenerated under the build lock each run)"],
+                 "harness/translate_c03.py (accumulator patterns from the AST, regenerated under the build lock each run)",
+                 "harness/translate_c03ir.py: Python AST -> HeapIR (Generated/HeapIR*.lean, regenerated each run); its tables "
+                 "of library summaries (pure results by kind, writers, write keywords), the purity of callbacks, "
+                 "immutable-annotation rule, caller-performed return of parameters and the four REVIEWED_PURE functions "
+                 "are listed in the notes of the evidence ('HeapIR trusted summaries')"],
     )
